@@ -37,7 +37,12 @@ def scan(state, groups, tid):
     def F(phi):
         phi = np.atleast_1d(np.asarray(phi, float))
         stats["evals"] += phi.size
-        sol = G.call(s, [(math.cos(a), math.sin(a)) for a in phi], 0.25)
+        # the points are requested in a scrambled order (the property holds at every point whatever the request looks
+        # like) and put back in sweep order here
+        perm = np.random.RandomState(phi.size).permutation(phi.size)
+        inv = np.argsort(perm)
+        raw = G.call(s, [(math.cos(a), math.sin(a)) for a in phi[perm]], 0.25)
+        sol = {nm: np.asarray(raw[nm])[inv] for nm in raw.dtype.names}
         return {"p": np.asarray(sol["pressure"], float), "rho": np.asarray(sol["density"], float), "e": np.asarray(sol["specific_internal_energy"], float),
                 "mach": np.asarray(sol["Mach"], float), "u": np.asarray(sol["x_velocity"], float), "v": np.asarray(sol["y_velocity"], float),
                 "speed": np.asarray(sol["speed"], float)}
